@@ -688,17 +688,27 @@ void executeRun(const Desc& d, Obs& o) {
         fired("configured_through_registry_api");
         Config c = configOf(d);
         SetPointerPlugin pPlugin(DEF_PLUGIN_SET_POINTER); reg.installPlugin(&pPlugin);
-        TestFilter* gfl = 0; TestFilter* nfl = 0; Vec<TestFilter*> made;
+        TestFilter* gfl = 0; TestFilter* nfl = 0; Vec<TestFilter*> made; Vec<int> madeMode;
         for (size_t g = 0; g < d.groups.size(); g++) {
             const Group& G = d.groups[g]; if (G.tag != "filter") continue;
             int form = (int)G.arg(3); bool strict = G.arg(1) != 0 || form >= 2, invert = G.arg(2) != 0 && form < 2;
             for (int part = 0; part < (form == 0 ? 1 : 2); part++) {
                 bool isName = form == 0 ? G.arg(0) != 0 : part == 1;
                 TestFilter* f = new (::malloc(sizeof(TestFilter))) TestFilter(form == 0 ? G.sarg(0) : G.sarg((size_t)part));
-                if (strict) f->strictMatching(); if (invert) f->invertMatching();
-                made.push_back(f);
+                if (!d.pi("asked_before")) { if (strict) f->strictMatching(); if (invert) f->invertMatching(); }
+                made.push_back(f); madeMode.push_back((strict ? 1 : 0) | (invert ? 2 : 0));
                 if (isName) nfl = f->add(nfl); else gfl = f->add(gfl);
             }
+        }
+        if (d.pi("asked_before")) {
+            // The program asked every test whether it would run while the filter objects were still plain substring filters (one whole pass, then a
+            // pass it gave up after a few tests), and only then switched the same objects to their strict / inverted form. The questions have no
+            // effect: the run that follows selects by what the filters say when it runs.
+            fired("filters_changed_in_place_after_earlier_questions");
+            size_t extra = (size_t)d.pi("asked_before") - 1, k = 0;
+            for (UtestShell* t = reg.getFirstTest(); t; t = t->getNext()) (void)t->shouldRun(gfl, nfl);
+            for (UtestShell* t = reg.getFirstTest(); t && k < extra; t = t->getNext(), k++) (void)t->shouldRun(gfl, nfl);
+            for (size_t i = 0; i < made.size(); i++) { if (madeMode[i] & 1) made[i]->strictMatching(); if (madeMode[i] & 2) made[i]->invertMatching(); }
         }
         reg.setGroupFilters(gfl); reg.setNameFilters(nfl);
         int lateRi = (int)d.pi("late_ri", 0);
